@@ -71,6 +71,10 @@ type Request struct {
 
 	keepBodyBuffer bool
 
+	// Set when a server request body stream was closed before the whole body
+	// was read from the connection.
+	bodyStreamUnread bool
+
 	// Used by Server to indicate the request was received on a HTTPS endpoint.
 	// Client/HostClient shouldn't use this field but should depend on the uri.scheme instead.
 	isTLS bool
@@ -2419,6 +2423,7 @@ func (req *Request) closeBodyStream() error {
 		err = bsc.Close()
 	}
 	if rs, ok := req.bodyStream.(*requestStream); ok {
+		req.bodyStreamUnread = !rs.drained()
 		releaseRequestStream(rs)
 	}
 	req.bodyStream = nil
